@@ -31,10 +31,10 @@ M = [
   "            actual_records.push(IndexEntry::new(\n                IndexTag::RPMTAG_COOKIE,",
   "            actual_records.push(IndexEntry::new(\n                IndexTag::RPMTAG_BUILDHOST,",
   "cookie emitted under the BUILDHOST tag"),
- ("C07-pad-off-by-one", "C07", "src/rpm/payload.rs",
-  "    let overhang = len % 4;\n    if overhang != 0 {",
-  "    let overhang = len % 4;\n    if overhang > 1 {",
-  "cpio padding skipped when the length is 1 mod 4 (reader and writer agree with each other, not with cpio)"),
+ ("C07-pairing-ignores-case", "C07", "src/rpm/payload.rs",
+  "                    e.path.strip_prefix(\"/\").unwrap_or(&e.path) == std::path::Path::new(name)",
+  "                    e.path.strip_prefix(\"/\").unwrap_or(&e.path).to_string_lossy().eq_ignore_ascii_case(name)",
+  "archive entries are paired with header entries by a case-insensitive name comparison"),
  ("C08-digest-first-64k", "C08", "src/rpm/builder.rs",
   "        hasher.update(&content);\n        let hash_result = hasher.finalize();",
   "        hasher.update(&content[..content.len().min(1 << 16)]);\n        let hash_result = hasher.finalize();",
@@ -63,14 +63,10 @@ M = [
   "        out.write_all(&self.store)?;\n        Ok(())",
   "        let _ = out.write(&self.store)?;\n        Ok(())",
   "the header store is written with write() instead of write_all()"),
- ("C15-zero-epoch-dropped", "C15", "src/version.rs",
-  "        if !self.epoch.is_empty() {\n            write!(f, \"{}:\", self.epoch)?;\n        }\n\n        write!(f, \"{}-{}\", self.version, self.release)",
-  "        if !self.epoch.is_empty() && self.epoch != \"0\" {\n            write!(f, \"{}:\", self.epoch)?;\n        }\n\n        write!(f, \"{}-{}\", self.version, self.release)",
-  "Display of an EVR drops an explicit zero epoch"),
- ("C16-padding-eight", "C16", "src/rpm/package.rs",
-  "        let padding = self.signature.padding_required();\n\n        let header_start",
-  "        let padding = 8 - (self.signature.index_header.data_section_size % 8);\n\n        let header_start",
-  "offset arithmetic adds 8 bytes of padding when the signature store is already aligned"),
+ ("C15-bzip2-short-name", "C15", "src/rpm/compressor.rs",
+  "            Self::Bzip2 => write!(f, \"bzip2\"),\n        }\n    }\n}\n\nimpl std::str::FromStr",
+  "            Self::Bzip2 => write!(f, \"bz2\"),\n        }\n    }\n}\n\nimpl std::str::FromStr",
+  "CompressionType::Bzip2 prints as 'bz2', which does not parse back"),
  ("C17-filename-unwrap", "C17", "src/rpm/builder.rs",
   "        let base_name = pb\n            .file_name()\n            .ok_or_else(|| Error::InvalidDestinationPath {\n                path: dest.clone(),\n                desc: \"no file name found\",\n            })?\n            .to_string_lossy()\n            .to_string();",
   "        let base_name = pb.file_name().unwrap().to_string_lossy().to_string();",
@@ -79,10 +75,10 @@ M = [
   "        if raw_mode > u16::MAX.into() || raw_mode < i16::MIN.into() {",
   "        if raw_mode >= u16::MAX.into() || raw_mode < i16::MIN.into() {",
   "65535 classified as out of the 16-bit range"),
- ("C19-empty-capname", "C19", "src/rpm/filecaps.rs",
-  "    for part in s.split(',') {\n        if !CAPS.contains(&part.to_uppercase().as_str()) {",
-  "    for part in s.split(',') {\n        if part.is_empty() {\n            continue;\n        }\n        if !CAPS.contains(&part.to_uppercase().as_str()) {",
-  "empty items in the capability name list are skipped (',=p' and 'cap_chown,,cap_kill=p' accepted)"),
+ ("C19-split-on-space-only", "C19", "src/rpm/filecaps.rs",
+  "    for part in s.split_whitespace() {",
+  "    for part in s.split(' ').filter(|p| !p.is_empty()) {",
+  "clauses are split at spaces only: tab-separated clauses are rejected"),
  ("C20-secs-as-u32", "C20", "src/rpm/timestamp.rs",
   "            .and_then(|t| t.as_secs().try_into().map_err(|_| TimestampError::Overflow))",
   "            .map(|t| t.as_secs() as u32)",
